@@ -58,8 +58,8 @@ Lemma loaded_links_inside_lemma img kept i p n :
   exists e abs t, In e (i_entries img) /\ e_kind e = KLink abs t /\ e_name e = p /\
                   inside (lexical_input (e_name e) abs t) /\
                   n_target n = link_target (e_name e) abs t /\
-                  (abs = false -> canonical (n_target n) = true /\
-                                  clean_rel (lexical_input (e_name e) abs t) = (0, n_target n)).
+                  canonical (n_target n) = true /\
+                  clean_rel (lexical_input (e_name e) abs t) = (0, n_target n).
 Proof.
   intros Hfresh Hg Hs. apply view_get_raw in Hg. apply raw_get_cases in Hg as [_ [Hns|[e [Hin [Hname Hlive]]]]].
   - congruence.
@@ -69,8 +69,8 @@ Proof.
     injection Hlive as <-. cbn [n_target].
     pose proof (proj1 (target_outside_root_iff_lemma _ _ _ _ (Hfresh e abs t Hin Ek)) Eo) as Hinside.
     exists e, abs, t. repeat split; auto.
-    + subst abs. cbn [link_target]. apply clean_rooted_canonical_lemma.
-    + subst abs. cbn [link_target lexical_input] in *. apply inside_clean_lemma. exact Hinside.
+    + apply clean_rooted_canonical_lemma.
+    + apply inside_clean_lemma. exact Hinside.
 Qed.
 
 (* an entry whose link target climbs above the root is in no view (its path holds no symlink) *)
